@@ -26,7 +26,7 @@ ASSIGNOPS = ['=', '+=', '-=', '*=', '/=', '%=', '..=']
 
 # terminal class -> spelling (names get their spelling from the occurrence index unless the class fixes it)
 NAME_CLASSES = {'NAME': None, 'NAME_e': b'e1', 'NAME_x': b'xf', 'NAME_b': b'b1', 'NAME_kw': b'do1', 'NAME_kw2': b'endx',
-                'NAME_hi': b'\x8ba', 'NAME_builtin': b'print', 'NAME_us': b'_x'}
+                'NAME_hi': b'\x8ba', 'NAME_builtin': b'print', 'NAME_us': b'_x', 'NAME_kwhi': b'not\x92', 'NAME_kwhi2': b'end\x80'}
 NUMBER_CLASSES = {'INT': b'1', 'NUM_dot': b'1.', 'NUM_ldot': b'.5', 'NUM_frac': b'1.5', 'NUM_exp': b'1e5',
                   'NUM_expm': b'2e-3', 'NUM_expp': b'3e+2', 'HEX': b'0x1f', 'HEXU': b'0X2E', 'HEXFRAC': b'0x1.8',
                   'HEXLDOT': b'0x.8', 'BIN': b'0b1', 'BINFRAC': b'0b1.1'}
